@@ -221,10 +221,36 @@ def violText (names : Array String) : Viol → String
 
 def flowNo (w : String) : Option Nat := if w.startsWith "F" then (w.drop 1).toNat? else none
 
+/-- The grammar evaluated with the sub-process relay handled explicitly. Traces of nodes inside an embedded sub-process
+reach the process's stream through a relay (`subProcess.run` subscribes to the inner tracer and forwards everything but
+completion / termination traces), so the relayed part is the inner stream FROM THE RELAY'S SUBSCRIPTION on. When the
+first inner traces are missing, the two rules that need them (`leave` needs the `visit`, a flow's `FlowTrace` needs its
+`NewFlowTrace`) are repaired by inserting the missing trace right before its first use, the loss is counted, and the
+scan goes on, so that every other rule is still judged on the whole history. Top-level traces are never repaired. -/
+def scanRelayed (inner : Nat → Bool) (ts : List Bpmn.Spec.Trace) : Option Bpmn.Spec.Viol × Nat := Id.run do
+  let mut s : Bpmn.Spec.Scan := {}
+  let mut lost := 0
+  for t in ts do
+    match Bpmn.Spec.scanStep s t with
+    | .ok s' => s := s'
+    | .error v =>
+      let repaired : Option Bpmn.Spec.Scan :=
+        match v, t with
+        | .leaveBeforeVisit n, .leave m =>
+          if n == m && inner n then (Bpmn.Spec.scanStep { s with inside := n :: s.inside } t).toOption else none
+        | .flowBeforeNewflow f, .flow src _ =>
+          if inner src then (Bpmn.Spec.scanStep { s with started := f :: s.started } t).toOption else none
+        | _, _ => none
+      match repaired with
+      | some s' => s := s'; lost := lost + 1
+      | none => return (some v, lost)
+  return (none, lost)
+
 open Bpmn.Spec in
 def checkGrammar (_params : List String) (lines : List String) : CaseResult := Id.run do
   let mut r : CaseResult := {}
   let mut names : Array String := #[]
+  let mut innerNames : List String := []
   let mut ts : Array Trace := #[]
   let mut n := 0
   for ln in lines do
@@ -234,6 +260,8 @@ def checkGrammar (_params : List String) (lines : List String) : CaseResult := I
       | some i => (names, i)
       | none => (names.push x, names.size)
     match words ln with
+    | "prog" :: "node" :: id :: rest =>
+      if (kv rest "parent").getD "-" != "-" then innerNames := id :: innerNames
     | ["obs", "newflow", f] =>
       match flowNo f with
       | some f => ts := ts.push (.newflow f)
@@ -257,9 +285,14 @@ def checkGrammar (_params : List String) (lines : List String) : CaseResult := I
     | "obs" :: _ => ts := ts.push .other
     | "harness-error" :: rest => r := { r with bad := ("harness-error " ++ " ".intercalate rest) :: r.bad }
     | _ => pure ()
-  match firstViolation ts.toList with
-  | some v => r := { r with specs := violText names v :: r.specs }
-  | none => pure ()
+  let inner (i : Nat) : Bool := innerNames.contains (names[i]?.getD "")
+  if !causal ts.toList then
+    let (v, lost) := scanRelayed inner ts.toList
+    match v with
+    | some v => r := { r with specs := violText names v :: r.specs }
+    | none => pure ()
+    if lost > 0 then
+      r := { r with specs := s!"relay_lost_inner_prefix: {lost} trace(s) of nodes inside a sub-process are used but missing from the process's stream (the first inner traces were sent before the relay subscribed)" :: r.specs }
   let forks := ts.any (fun t => match t with | .flow _ fs => fs.length ≥ 2 | _ => false)
   return { r with nontrivial := forks }
 
